@@ -65,3 +65,11 @@ Example C09_same_findings :
   /\ ann "audit-violations" (fst o) = ann "audit-violations" (fst op)
   /\ P09 cex_cfg cex_ev r w o (Some op) = true.
 Proof. vm_compute. repeat split. Qed.
+
+(** ---- side conditions on the constants regenerated from the source (Gen/Constants.v) ---- *)
+From PSA Require Import Proofs.Constants_table.
+From PSA Require Gen.Constants.
+From PSA Require Import Spec.P02.
+Theorem C09_pod_spec_resources_are_source : same_set Gen.Constants.gen_pod_spec_resources pss_pod_spec_resources = true.
+Proof. exact pod_spec_resources_are_source. Qed.
+Print Assumptions C09_pod_spec_resources_are_source.
